@@ -3,6 +3,9 @@
  *
  * PISTACHE_VERIF_YIELD(label) marks a point where a cooperative test scheduler
  * may hand control to another thread. Without the define it expands to nothing.
+ * PISTACHE_VERIF_GUARD(name, mtx, label) is a scoped lock; without the define it is a
+ * plain std::unique_lock. PISTACHE_VERIF_ACCESS(obj, field, write) reports an access to
+ * shared state; without the define it expands to nothing.
  */
 
 #pragma once
@@ -21,12 +24,58 @@ namespace Pistache::Verif
         if (yieldHook)
             yieldHook(label);
     }
+
+    // Reports "the calling thread now holds / is about to release this mutex".
+    using LockFn = void (*)(const void* mtx, int acquired);
+    inline LockFn lockHook = nullptr;
+
+    // Reports an access to a piece of shared state (object address, field name, write?).
+    using AccessFn = void (*)(const void* obj, const char* field, int write);
+    inline AccessFn accessHook = nullptr;
+
+    inline void access(const void* obj, const char* field, int write)
+    {
+        if (accessHook)
+            accessHook(obj, field, write);
+    }
+
+    // Scoped lock that never blocks inside the mutex: a cooperative scheduler runs one
+    // thread at a time, so a contended acquisition has to hand control back instead.
+    template <typename Mutex>
+    class Guard
+    {
+    public:
+        Guard(Mutex& m, const char* label)
+            : m_(m)
+        {
+            yield(label);
+            while (!m_.try_lock())
+                yield("blocked");
+            if (lockHook)
+                lockHook(&m_, 1);
+        }
+        ~Guard()
+        {
+            if (lockHook)
+                lockHook(&m_, 0);
+            m_.unlock();
+        }
+        Guard(const Guard&) = delete;
+        Guard& operator=(const Guard&) = delete;
+
+    private:
+        Mutex& m_;
+    };
 } // namespace Pistache::Verif
 
 #define PISTACHE_VERIF_YIELD(label) ::Pistache::Verif::yield(label)
+#define PISTACHE_VERIF_ACCESS(obj, field, write) ::Pistache::Verif::access(obj, field, write)
+#define PISTACHE_VERIF_GUARD(name, mtx, label) ::Pistache::Verif::Guard<std::mutex> name(mtx, label)
 
 #else
 
 #define PISTACHE_VERIF_YIELD(label) ((void)0)
+#define PISTACHE_VERIF_ACCESS(obj, field, write) ((void)0)
+#define PISTACHE_VERIF_GUARD(name, mtx, label) std::unique_lock<std::mutex> name(mtx)
 
 #endif
